@@ -129,6 +129,9 @@ def run(tier='quick'):
                         'the same track (or an earlier setter of this one) would leave stale (rule N1 of C10)', floor=10)
     from . import c10 as _c10
     _c10.handles_stateless(prog, chk, G8)
+    G9 = chk.rule('G9', 'the fixed-width primitives every blob field passes through are exact for every value (rule L1 of C02)',
+                  floor=14)
+    extra.primitives_exact(prog, chk, G9)
     return chk.finish('value-flow interpretation of the 60 track_impl virtuals of both implementations per '
                       'schema range (%d representative versions): per-field read / write location sets with '
                       'blob-member granularity, converter argument roles, written constants; row-scope and '
